@@ -587,7 +587,8 @@ fn l_op(cache: &allsorts::layout::LayoutCache<GSUB>, op: &str) -> String {
                 let mask = FeatureMask::from_bits_truncate(f[3].parse::<u64>().unwrap());
                 match gsub::features_supported(cache, script, lang, mask) {
                     Ok(b) => format!("ok:{}", b as u8),
-                    Err(_) => "err:Shaping".to_string(),
+                    Err(allsorts::error::ShapingError::Parse(e)) => format!("err:{}", perr(&e)),
+                    Err(_) => "err:ComplexScript".to_string(),
                 }
             }
             _ => "badop".to_string(),
@@ -634,10 +635,13 @@ fn vs_num(v: VariationSelector) -> u8 {
     v as u8
 }
 
-/// FONTSPEC = PAIRS!TABLES   PAIRS = cp/gid/e,...  (e: 1 when the character has Emoji_Presentation)
+/// FONTSPEC = PAIRS!TABLES!EMOJI   PAIRS = cp/gid,...
 ///   TABLES: letters g (glyf) c (CFF ) S/s (SVG valid/invalid) X/x (sbix) B/b (CBDT+CBLC) E/e (EBDT+EBLC), or `_`
+///   EMOJI: the characters (of those a case may query) that have Emoji_Presentation, cp.cp...; the harness checks
+///          the list against allsorts::unicode::bool_prop_emoji_presentation
 fn g_font(spec: &str) -> MapProvider {
-    let (pairs, tabs) = spec.split_once('!').unwrap();
+    let parts: Vec<&str> = spec.split('!').collect();
+    let (pairs, tabs) = (parts[0], parts[1]);
     let mut p = vec![];
     if pairs != "_" {
         for x in pairs.split(',') {
@@ -730,6 +734,17 @@ fn g_op(font: &mut Font<MapProvider>, op: &str) -> String {
 
 fn run_g(spec: &str, ops: &str) -> String {
     let provider = g_font(spec);
+    let emoji: Vec<u32> = plist(spec.split('!').nth(2).unwrap_or("_"));
+    let ops_all: Vec<&str> = ops.split(';').filter(|s| !s.is_empty()).collect();
+    for op in &ops_all {
+        if let Some(rest) = op.strip_prefix("lg/") {
+            let cp: u32 = rest.split('/').next().unwrap().parse().unwrap();
+            let e = char::from_u32(cp).map(allsorts::unicode::bool_prop_emoji_presentation).unwrap_or(false);
+            if e != emoji.contains(&cp) {
+                return format!("badspec:emoji-flag-of-{}", cp);
+            }
+        }
+    }
     let mut font = match Font::new(provider.clone()) {
         Ok(f) => f,
         Err(e) => return format!("err:font-{}", perr(&e)),
@@ -1213,11 +1228,12 @@ const G_CHARS: &[(u32, bool)] =
 
 fn gen_g(rng: &mut Rng) -> String {
     let mut pairs = vec![];
-    for (i, (c, e)) in G_CHARS.iter().enumerate() {
+    for (i, (c, _)) in G_CHARS.iter().enumerate() {
         if rng.chance(5, 6) {
-            pairs.push(format!("{}/{}/{}", c, 3 + i, *e as u8));
+            pairs.push(format!("{}/{}", c, 3 + i));
         }
     }
+    let emoji: Vec<u32> = G_CHARS.iter().filter(|x| x.1).map(|x| x.0).collect();
     let mut tabs = String::new();
     for c in ["g", "c", "S", "s", "X", "x", "B", "b", "E", "e"] {
         if rng.chance(1, 4) {
@@ -1248,7 +1264,7 @@ fn gen_g(rng: &mut Rng) -> String {
             }
         }
     }
-    format!("G|{}!{}|{}", ps, tabs, ops.join(";"))
+    format!("G|{}!{}!{}|{}", ps, tabs, slist(&emoji), ops.join(";"))
 }
 
 struct Fx {
